@@ -196,6 +196,7 @@ def check_c14(v: Verdict, t1_summary, n_trees):
             v.samples.append(desc)
     c14_order_battery(v, hist)
     c14_overrides_battery(v, hist)
+    c14_nested_battery(v, hist)
     # the model's acceptance is evaluated for the tree's own order; the real union is built from a set (hash order),
     # and acceptance can depend on the order (finding F23 of C12): such mismatches are counted, not compared
     texts, metas = [], []
@@ -351,3 +352,58 @@ def c14_overrides_battery(v: Verdict, hist):
                                 v.violation("include_subclasses with overrides: the payload does not carry exactly the (renamed) attributes of the instance's class",
                                             {**rp, "payload": payload, "expected_keys": sorted(want)})
     hist["overrides_battery_pairs"] = n
+
+
+def c14_nested_battery(v: Verdict, hist):
+    """systematic: a subclass whose attributes are typed with the BASE class (bare, Optional, List, Dict) holding instances of other
+    subclasses, both strategies, forbid_extra_keys on/off, both modes, on a fresh converter and on one that was USED for one of the
+    classes before include_subclasses was called (finding F37): the base-typed round trip restores every nested instance's exact class"""
+    from typing import Dict, List, Optional
+    E = attrs.make_class("NE", {})
+    L = attrs.make_class("NL", {"value": attrs.field(type=int)}, bases=(E,))
+    A = attrs.make_class("NA", {"left": attrs.field(type=E), "opt": attrs.field(type=Optional[E], default=None), "many": attrs.field(type=List[E], factory=list),
+                                "named": attrs.field(type=Dict[str, E], factory=dict)}, bases=(E,))
+    x = A(L(1), L(2), [L(3), A(L(4), A(L(5)))], {"k": L(6), "j": A(L(7))})
+    warm_values = {None: None, "NE": E(), "NL": L(0), "NA": A(L(0), L(0), [L(0)], {"k": L(0)})}
+    n = 0
+    for strategy in ("auto", "tagged"):
+        for warm, wv in warm_values.items():
+            for how in ("unstructure", "structure", "both"):
+                if warm is None and how != "unstructure":
+                    continue
+                for forbid in (False, True):
+                    for dv in (True, False):
+                        conv = Converter(forbid_extra_keys=forbid, detailed_validation=dv)
+                        gc.collect()
+                        if wv is not None:
+                            try:
+                                u0 = conv.unstructure(wv) if how in ("unstructure", "both") else Converter().unstructure(wv)
+                                if how in ("structure", "both"):
+                                    conv.structure(u0, type(wv))
+                            except Exception:      # noqa
+                                pass
+                        desc = {"lane": "SUB/C14 nested battery", "strategy": strategy, "forbid_extra_keys": forbid, "detailed_validation": dv,
+                                "converter_used_before_for": None if warm is None else f"{how}({warm})"}
+                        try:
+                            include_subclasses(E, conv, **({"union_strategy": configure_tagged_union} if strategy == "tagged" else {}))
+                        except Exception as e:
+                            v.violation("include_subclasses refused a tree whose subclasses all have a unique required attribute", {**desc, "error": repr(e)})
+                            continue
+                        for K, inst in ((E, x), (A, x), (E, L(9))):
+                            n += 1
+                            rp = {**desc, "structure_as": K.__name__, "instance": repr(inst)}
+                            v.count(repr(rp), True)
+                            try:
+                                payload = conv.unstructure(inst, unstructure_as=K)
+                                back = conv.structure(payload, K)
+                            except Exception as e:
+                                leaf = K is not E
+                                if strategy == "tagged" and forbid and leaf and "ForbiddenExtraKeysError" in repr(e) + repr(getattr(e, "exceptions", "")):
+                                    v.finding("F16", "leaf class under the tagged-union strategy + forbid_extra_keys rejects the tag its unstructure hook adds", {**rp, "error": repr(e)})
+                                else:
+                                    v.violation("base-typed round trip raised after include_subclasses (attributes typed with the base class)", {**rp, "error": repr(e)[:400]})
+                                continue
+                            if back != inst or repr(back) != repr(inst):
+                                v.violation("base-typed round trip lost the exact subclass of a nested instance (attributes typed with the base class)",
+                                            {**rp, "payload": repr(payload)[:500], "back": repr(back)[:400]})
+    hist["nested_battery_pairs"] = n
